@@ -7,7 +7,27 @@ stays ``None`` -> ``unclassified:<stage>`` -> the run fails.
 """
 from __future__ import annotations
 
+import re
+
 INT_DTYPES = {"dtype:int64", "dtype:uint64", "dtype:Int64", "dtype:UInt64"}
+
+
+def _rounded_through_float(detail):
+    """The inferred statistic is a float, the float image of the exact
+    integer extreme (and not some other element of the data).  Unparsable
+    details keep the rule."""
+    try:
+        st = str(detail["statistic"])
+        ex = str(detail["data_extreme"])
+        if "(" in st:                       # np.float64(1.0) -> 1.0
+            st = st[st.rindex("(") + 1:].rstrip(")")
+        if "(" in ex:
+            ex = ex[ex.rindex("(") + 1:].rstrip(")")
+        if re.fullmatch(r"[-+]?\d+", st.strip()):
+            return False                    # an integer statistic
+        return float(st) == float(int(ex))
+    except Exception:
+        return True
 
 
 def classify(stage, where, flags, detail):
@@ -17,7 +37,8 @@ def classify(stage, where, flags, detail):
     # float(x.min()) / float(x.max()) for integers beyond 2**53
     if stage == "bound-not-tight" and "abs>2**53" in F and (
             (F & INT_DTYPES) or {"dtype:object", "inferred:integer"} <= F) \
-            and where in ("column", "index", "index-level"):
+            and where in ("column", "index", "index-level") \
+            and _rounded_through_float(detail):
         return "integer-bounds-computed-through-float"
 
     if stage == "infer-raises:AttributeError" and where == "frame" and \
@@ -65,7 +86,7 @@ def classify(stage, where, flags, detail):
 
 
 # quick-tier floors, about 1/4 of the unchanged tree with seed 0
-# (thorough, 24000 random cases: x20)
+# (thorough, 24000 random + 18000 derived cases: x20)
 FLOORS_QUICK = {
     "monitor:infer": 300, "monitor:validate": 300,
     "monitor:returned-values": 260, "monitor:bound-tight": 900,
@@ -84,4 +105,23 @@ FLOORS_QUICK = {
     "class:complex128": 9, "class:datetime-tz-berlin": 10,
     "class:obj-pydatetime-out-of-ns-bounds": 8, "class:obj-timestamp-mixed-tz": 8,
     "class:obj-pytime": 8, "class:obj-pydate": 8, "class:obj-pytimedelta-huge": 7,
+    # structured-index / derived-object family (min of seeds 0,1,2,3,12345 / 4);
+    # index-struct / index-type / rows are counted on the object handed to
+    # infer_schema, for DataFrames that reached validate
+    "derive:column_to_frame": 33, "derive:reset_index": 13, "derive:slice": 63,
+    "derive:slice:step<0": 105, "derive:sort_index": 35,
+    "derive:sort_values": 32, "derive:take": 38,
+    "index-class:date_range": 37, "index-class:range": 126,
+    "index-class:timedelta_range": 18,
+    "index-struct:freq": 32, "index-struct:freq-negative": 14,
+    "index-struct:has-duplicates": 145,
+    "index-struct:monotonic-decreasing": 94,
+    "index-struct:monotonic-increasing": 189,
+    "index-struct:non-monotonic": 133, "index-struct:range-start!=0": 71,
+    "index-struct:range-step<0": 54, "index-struct:range-stop-unaligned": 27,
+    "index-struct:range-|step|>1": 66, "index-struct:rangeindex": 233,
+    "index-type:CategoricalIndex": 4, "index-type:DatetimeIndex": 34,
+    "index-type:Index": 65, "index-type:MultiIndex": 122,
+    "index-type:RangeIndex": 230, "index-type:TimedeltaIndex": 15,
+    "rows:0": 79, "rows:1": 75, "rows:2+": 316,
 }
